@@ -264,14 +264,26 @@ def m_len(I, st, args, dest_ty, *r):
     return IntV.top("usize", d, 0, ISIZE_MAX, exact=free)
 
 
+def site_number(I, fn, b):
+    """number of the fresh value created at this call site in this calling context: the same site evaluated again
+    (a loop body revisited during the fixpoint iteration) gets the same number, so that the names of the atoms it
+    creates do not change from visit to visit and the iteration converges (allocation-site abstraction)"""
+    memo = I.__dict__.setdefault("site_numbers", {})
+    key = (tuple(I.call_stack), fn["name"] if isinstance(fn, dict) else str(fn), b)
+    if key not in memo:
+        I.fresh_n = getattr(I, "fresh_n", 0) + 1
+        memo[key] = I.fresh_n
+    return memo[key]
+
+
 def m_option(payload_ty_of_dest=True):
     def f(I, st, args, dest_ty, fn, b, line, fref):
         d = _deps(I, st, args)
         inner = _option_inner(dest_ty)
-        I.fresh_n = getattr(I, "fresh_n", 0) + 1
+        n_site = site_number(I, fn, b)
         recv = _deref(I, st, args[0])
         nm = recv.tag[1] if recv.kind == "top" and recv.tag and recv.tag[0] in ("map", "vec") else "lookup"
-        pv = fresh_value(I, I.P, inner, f"{nm}[{I.fresh_n}]")
+        pv = fresh_value(I, I.P, inner, f"{nm}[{n_site}]")
         return EnumV("Option", None, (), 2, d, {0: (), 1: (pv,)})
     return f
 
@@ -304,7 +316,8 @@ def m_from_str_radix(I, st, args, dest_ty, *r):
     if M.int_type(ok) and tok.kind == "top" and tok.tag and tok.tag[0] == "tok":
         pv = I.new_atom(ok, "num:" + tok.tag[1])
     else:
-        pv = IntV.top(ok, d, exact=True) if M.int_type(ok) else TopV(ok, d)
+        # a text of unknown shape: which numbers it can denote is not known, so no value is claimed attainable
+        pv = IntV.top(ok, d, exact=False) if M.int_type(ok) else TopV(ok, d)
     return EnumV("Result", None, (), 2, d, {0: (pv,), 1: (TopV(err, d),)})
 
 
@@ -588,12 +601,24 @@ def m_bytes_next(I, st, args, dest_ty, *r):
 
 
 def m_enumerate_next(I, st, args, dest_ty, *r):
+    """Enumerate::next: (index, item).  `enumerate` itself is modelled as the identity, so the receiver is the inner
+    iterator: a range gives its element interval; the bytes of a text give an arbitrary byte (every value occurs in
+    some text: exact); anything else gives an unknown item that is NOT claimed attainable."""
     d = _deps(I, st, args)
     inner = _option_inner(dest_ty)
     # (usize, T)
     t2 = inner.strip("()").split(",", 1)[1].strip() if "," in inner else "?"
-    item = IntV.top(t2, d, exact=True) if M.int_type(t2) else TopV(t2, d)
-    pv = AggV("tuple", [IntV.top("usize", d, 0, ISIZE_MAX, exact=True), item])
+    src = _deref(I, st, args[0])
+    item = None
+    if src.kind in ("agg", "top"):
+        try:
+            item = iter_elem(I, st, args[0]) if not (src.kind == "agg" and src.name == "iter:map") else None
+        except Unsupported:
+            item = None
+    if item is None:
+        from_text = src.kind == "top" and src.tag and src.tag[0] in ("tok", "str", "fresh")
+        item = IntV.top(t2, d, exact=bool(from_text and t2 == "u8")) if M.int_type(t2) else TopV(t2, d)
+    pv = AggV("tuple", [IntV.top("usize", d, 0, ISIZE_MAX, exact=False), item])
     return EnumV("Option", None, (), 2, ITER, {0: (), 1: (pv,)})
 
 
@@ -604,11 +629,11 @@ def m_iter_next_top(I, st, args, dest_ty, *r):
     return EnumV("Option", None, (), 2, ITER, {0: (), 1: (pv,)})
 
 
-def m_vec_pop(I, st, args, dest_ty, *r):
+def m_vec_pop(I, st, args, dest_ty, fn=None, b=None, *r):
     d = _deps(I, st, args)
     inner = _option_inner(dest_ty)
-    I.fresh_n = getattr(I, "fresh_n", 0) + 1
-    pv = I.new_atom(inner, f"popped[{I.fresh_n}]") if M.int_type(inner) else TopV(inner, d)
+    n_site = site_number(I, fn, b)
+    pv = I.new_atom(inner, f"popped[{n_site}]") if M.int_type(inner) else TopV(inner, d)
     # the vector changes
     return EnumV("Option", None, (), 2, d, {0: (), 1: (pv,)})
 
